@@ -211,6 +211,9 @@ func loadEngine(all []harnessRef, sel []harnessRef, tier int) (*sym.Engine, erro
 	if tier == 1 {
 		eng.TimeoutMs = 60000
 	}
+	if m := os.Getenv("GOSMT_MAXPATHS"); m != "" {
+		eng.MaxPaths, _ = strconv.Atoi(m)
+	}
 	if k := os.Getenv("GOSMT_SOLVER"); k != "" {
 		eng.SolverKind = k
 	}
